@@ -363,7 +363,7 @@ func init() {
 			res, _ := runTrajectoryHook(sc, env, c04OutputCfg(), []Oracle{o}, nil, func(root string) { o.root = root })
 			return res
 		},
-		Quick: 600, Thorough: 20000,
+		Quick: 2000, Thorough: 60000,
 		MaxBadShare: 0.6,
 		NonTrivial: func(res *Result) bool {
 			return res.Stats["reach.year-rollover"] > 0 || res.Stats["reach.uncovered-run-ended-with-error"] > 0
